@@ -120,6 +120,12 @@ class LocalFuncV:
         self.node, self.env, self.mod, self.qual = node, env, mod, qual
 
 
+# scipy.constants names that are plain numbers (SI prefixes; gram = 1e-3 as a number of kilograms)
+SCIPY_PLAIN_NUMBERS = {"gram": sp.Rational(1, 1000), "kilo": sp.Integer(1000), "milli": sp.Rational(1, 1000), "centi": sp.Rational(1, 100),
+                       "micro": sp.Rational(1, 10 ** 6), "nano": sp.Rational(1, 10 ** 9), "mega": sp.Integer(10 ** 6), "giga": sp.Integer(10 ** 9),
+                       "deci": sp.Rational(1, 10), "hecto": sp.Integer(100), "tera": sp.Integer(10 ** 12), "pico": sp.Rational(1, 10 ** 12)}
+
+
 class StaticV:
     """staticmethod(f) / classmethod-free wrapper stored as a class attribute"""
 
@@ -711,6 +717,8 @@ class Ev:
             return sp.pi
         if full in ("scipy.constants.physical_constants",):
             return LibV(full)
+        if full.startswith("scipy.constants.") and full.rsplit(".", 1)[1] in SCIPY_PLAIN_NUMBERS:
+            return SCIPY_PLAIN_NUMBERS[full.rsplit(".", 1)[1]]
         if full.startswith("scipy.constants.") and full.rsplit(".", 1)[1] in U.SCIPY_DIRECT:
             q, unit = U.PHYSICAL_CONSTANTS[U.SCIPY_DIRECT[full.rsplit(".", 1)[1]]]
             return q / unit
@@ -811,6 +819,12 @@ class Ev:
     def e_Dict(self, n, env, mod):
         d = {}
         for k, v in zip(n.keys, n.values):
+            if k is None:               # {**other}
+                other = self.eval(v, env, mod)
+                if not isinstance(other, DictV):
+                    raise self.err("** of a non-constant dict in a dict display", n, mod)
+                d.update(other.d)
+                continue
             d[self.eval(k, env, mod)] = self.eval(v, env, mod)
         return DictV(d)
 
@@ -1518,6 +1532,11 @@ class Ev:
             return self.call_lib(f.name, [f.recv] + args, kwargs, n, mod)
         if isinstance(f, LibV):
             return self.call_lib(f.name, args, kwargs, n, mod)
+        if isinstance(f, Obj) and not f.cls.startswith("ext:"):
+            owner, cm, kind = self.model.find_member(f.cls, "__call__")
+            if cm is not None:
+                omod = self.model.mods[owner.split(":")[0]]
+                return self.call_def(cm, omod, f"{owner}.__call__", [f] + list(args), kwargs)
         raise self.err(f"call of a non-callable {type(f).__name__}", n, mod)
 
     def construct(self, cref, args, kwargs, n=None, mod=None):
@@ -1539,6 +1558,25 @@ class Ev:
             if missing or len(args) > len(fields):
                 raise RaisedV("TypeError", f"{mod.rel}:{getattr(n, 'lineno', 0)}" if mod else "")
             obj.attrs["__fields__"] = fields
+            return obj
+        if any((dotted_name(d.func if isinstance(d, ast.Call) else d) or "").split(".")[-1] == "dataclass" for d in c.decorator_list) \
+                and self.model.find_member(cref, "__init__")[1] is None:
+            # @dataclass without an explicit __init__: annotated class-body names are the constructor parameters, in order
+            fields = [s_ for s_ in c.body if isinstance(s_, ast.AnnAssign) and isinstance(s_.target, ast.Name)]
+            names = [s_.target.id for s_ in fields]
+            if len(args) > len(names) or set(kwargs) - set(names):
+                raise RaisedV("TypeError", f"{mod.rel}:{getattr(n, 'lineno', 0)}" if mod else "")
+            for fname, v in zip(names, args):
+                obj.attrs[fname] = v
+            obj.attrs.update(kwargs)
+            for s_ in fields:
+                if s_.target.id not in obj.attrs:
+                    if s_.value is None:
+                        raise RaisedV("TypeError", f"{mod.rel}:{getattr(n, 'lineno', 0)}" if mod else "")
+                    obj.attrs[s_.target.id] = self.eval(s_.value, {}, self.model.mods[cref.split(":")[0]])
+            owner_pi, post, _k = self.model.find_member(cref, "__post_init__")
+            if post is not None:
+                self.call_def(post, self.model.mods[owner_pi.split(":")[0]], f"{owner_pi}.__post_init__", [obj], {})
             return obj
         for bname in self.model.mro(cref):
             if bname.startswith("ext:") and bname.endswith("UserDict"):
@@ -1625,7 +1663,9 @@ class Ev:
                 if not is_gen:
                     return r.value
             if is_gen:
-                return Tup(env["__yields__"], "list")
+                gen_ = Tup(env["__yields__"], "list")
+                gen_.gen = True             # the (eagerly folded) items of a generator: next() consumes them one by one
+                return gen_
             return None
         finally:
             self.depth -= 1
@@ -3207,6 +3247,12 @@ def lib_next(ev, a, k, n, mod):
             if e.exc_name == "StopIteration" and len(a) > 1:
                 return a[1]
             raise
+    if isinstance(a[0], Tup) and getattr(a[0], "gen", False):
+        if a[0].items:
+            return a[0].items.pop(0)
+        if len(a) > 1:
+            return a[1]
+        raise RaisedV("StopIteration")
     items = ev.iterate(a[0], n, mod)
     if items:
         return items[0]
@@ -3376,6 +3422,15 @@ def lib_np_average(fallback, allow_weights):
     normalised by their sum as numpy does; a length mismatch raises as numpy does)"""
     def f(ev, a, k, n, mod):
         x = a[0]
+        if isinstance(x, Tup) and x.items and all(is_sym(i) and not isinstance(i, bool) for i in x.items) and any(as_sym(i).free_symbols for i in x.items):
+            # mean over a sequence of whole-array expressions along the new leading axis: their (weighted) mean, elementwise
+            axis_ = k.get("axis", a[1] if len(a) > 1 else None)
+            if axis_ is not None and _const_int(axis_) == 0 and not (set(k) - {"axis", "weights"}):
+                w_ = k.get("weights") if allow_weights else None
+                ws_ = [sp.Integer(1)] * len(x.items) if w_ is None else _weights_list(ev, w_, n, mod)
+                if len(ws_) != len(x.items):
+                    raise RaisedV("ValueError", f"{mod.rel}:{getattr(n, 'lineno', 0)}" if mod else "")
+                return sum((w1 * as_sym(i) for w1, i in zip(ws_, x.items)), sp.Integer(0)) / sum(ws_)
         if not isinstance(x, ArrV):
             if fallback is None:
                 raise ev.err("mean of this operand is not modelled", n, mod)
@@ -3687,6 +3742,41 @@ def lib_hasattr(ev, a, k, n, mod):
 
 
 LIB["hasattr"] = lib_hasattr
+for _nm, _op in (("equal", ast.Eq), ("not_equal", ast.NotEq), ("less", ast.Lt), ("less_equal", ast.LtE), ("greater", ast.Gt), ("greater_equal", ast.GtE)):
+    LIB[f"numpy.{_nm}"] = (lambda opc: (lambda ev, a, k, n, mod: ev.compare(opc(), a[0], a[1], n, mod)))(_op)
+
+
+def lib_expand_dims(ev, a, k, n, mod):
+    x = a[0]
+    if isinstance(x, ArrV):
+        raise ev.err("numpy.expand_dims of a small array is not modelled", n, mod)
+    return x            # a broadcasting wrapper around a symbolic value: erased (like x[:, None])
+
+
+lib_expand_dims.kw = {"axis"}
+LIB["numpy.expand_dims"] = lib_expand_dims
+
+
+class MethodCallerV:
+    """operator.methodcaller(name, *args, **kwargs)"""
+
+    def __init__(self, name, args, kwargs):
+        self.name, self.args, self.kwargs = name, args, kwargs
+
+    def sym_call(self, ev, args, kwargs, n, mod):
+        if len(args) != 1 or kwargs:
+            raise ev.err("methodcaller object called with other than one argument", n, mod)
+        return ev.call(ev.get_attr(args[0], self.name, n, mod), list(self.args), dict(self.kwargs), n, mod)
+
+
+def lib_methodcaller(ev, a, k, n, mod):
+    if not a or not isinstance(a[0], str):
+        raise ev.err("operator.methodcaller with a non-constant method name", n, mod)
+    return MethodCallerV(a[0], list(a[1:]), dict(k))
+
+
+lib_methodcaller.kw = None
+LIB["operator.methodcaller"] = lib_methodcaller
 
 
 def lib_ufunc2(opcls):
@@ -3823,6 +3913,12 @@ def lib_where3(ev, a, k, n, mod):
         # an exact `== 0` guard on the value that is returned otherwise is the identity wherever that value is non-zero
         if cond.op == "==" and is_sym(cond.rhs) and cond.rhs == 0 and is_sym(cond.lhs) and as_sym(y) == cond.lhs:
             return y
+        yv = y.val if isinstance(y, Masked) else y
+        if is_sym(x) and as_sym(x).is_number and is_sym(yv) and as_sym(yv).free_symbols and not isinstance(yv, bool):
+            # numpy.where(<condition on a row coordinate>, constant, values): the values with the constant stored where the condition
+            # holds - the same thing as values[numpy.where(cond), :] = constant on a fresh array
+            rec = MaskRec(cond, f"where({cond.text})", x, getattr(n, "lineno", 0), axis=0, rest_full=True)
+            return Masked(yv, (list(y.masks) if isinstance(y, Masked) else []) + [rec])
         return sp.Function("WHERE")(sp.Symbol("cond[" + cond.text + "]"), as_sym(x), as_sym(y))
     if isinstance(cond, TolCond):
         return sp.Function("WHERE")(sp.Symbol("cond[" + cond.text + "]"), as_sym(x), as_sym(y))
